@@ -313,3 +313,37 @@ Definition parse_val (like : sqlval) (text : bytes) : option sqlval :=
     end
   | VNull => None
   end.
+
+(* ---------- decimal literals: [-]digits[.digits] as decimal.String() prints them (scale kept) ---------- *)
+Record dec := { d_neg : bool; d_int : N; d_frac : list N }.      (* fraction digits, each < 10 *)
+
+Definition fmt_dec (x : dec) : bytes :=
+  (if d_neg x then [45] else []) ++ fmt_nat (d_int x)
+  ++ match d_frac x with [] => [] | f => 46 :: map (fun d => 48 + d) f end.
+
+Fixpoint split_dot (s : bytes) (acc : bytes) : bytes * option bytes :=
+  match s with
+  | [] => (rev acc, None)
+  | c :: t => if c =? 46 then (rev acc, Some t) else split_dot t (c :: acc)
+  end.
+
+Fixpoint frac_digits (s : bytes) : option (list N) :=
+  match s with
+  | [] => Some []
+  | c :: t => if (48 <=? c) && (c <=? 57)
+              then match frac_digits t with Some r => Some (c - 48 :: r) | None => None end
+              else None
+  end.
+
+Definition parse_dec (s : bytes) : option dec :=
+  let '(neg, body) := match s with c :: t => if c =? 45 then (true, t) else (false, s) | [] => (false, []) end in
+  let '(ip, fp) := split_dot body [] in
+  match parse_nat ip with
+  | None => None
+  | Some n =>
+    match fp with
+    | None => Some {| d_neg := neg; d_int := n; d_frac := [] |}
+    | Some [] => None
+    | Some f => match frac_digits f with Some r => Some {| d_neg := neg; d_int := n; d_frac := r |} | None => None end
+    end
+  end.
